@@ -12,6 +12,9 @@ from .interp import (PyRaise, ExcVal, EXC, ClassVal, BuiltinType, BT, is_number,
                      PyFunc, BoundMethod, Builtin, ExcClass, ModuleVal, Prop, StaticM, ClassM)
 
 
+PLACEHOLDER_RE = re.compile(r"9\d{4}7")
+
+
 def native(fn):
     fn._pyvc_native = True
     return fn
@@ -253,6 +256,12 @@ class BuiltinsMixin(object):
             ns = x.nums()
             if len(x.parts) == 1 and len(ns) == 1:
                 return self.numeral_value(ns[0])
+            if len(ns) == 1 and all(isinstance(p, str) and p.strip() == "" for p in x.parts if isinstance(p, str)):
+                return self.numeral_value(ns[0])
+            if len(ns) >= 1 and any(isinstance(p, str) and p.strip() != "" for p in x.parts):
+                txt = "".join(p for p in x.parts if isinstance(p, str)).strip()
+                if not any(c.isdigit() or c in "eE.+-_" for c in txt):
+                    self.raise_("ValueError", "could not convert string to float")
             raise Undecided("float() of formatted string")
         self.raise_("TypeError", "float() argument must be a string or a real number, not '%s'" % type(x).__name__)
 
@@ -845,6 +854,12 @@ class BuiltinsMixin(object):
             last = s.parts[-1]
             if isinstance(last, str) and len(last) >= len(suf):
                 return last.endswith(suf)
+            if isinstance(last, str) and len(s.parts) >= 2 and not isinstance(s.parts[-2], str):
+                if not suf.endswith(last):
+                    return False
+                need = suf[-(len(last) + 1)]
+                if not (need.isdigit() or need == "."):
+                    return False  # a numeral ends in a digit or a dot (A5; inf/nan excluded by A1)
             if not isinstance(last, str) and suf.isalpha() and suf.lower() not in ("e", "inf", "nan"):
                 return False
             if not isinstance(last, str) and suf in ("%", ";"):
@@ -1063,24 +1078,66 @@ class BuiltinsMixin(object):
     def regex_method(self, r, name):
         rx = re.compile(r.pattern, r.flags)
 
+        holder = {}
+
         def need_str(s):
             if isinstance(s, str):
                 return s
+            if isinstance(s, FmtStr):
+                # A5 (numeral-spelling independence): every opaque numeral is replaced by a distinct concrete
+                # placeholder numeral, the real regex runs on that text, and placeholders found in the
+                # result are mapped back to the opaque numerals.
+                out = []
+                for part in s.parts:
+                    if isinstance(part, str):
+                        if PLACEHOLDER_RE.search(part):
+                            raise Undecided("text collides with numeral placeholders")
+                        out.append(part)
+                    else:
+                        key = "9%04d7" % (len(holder) + 1)
+                        holder[key] = part
+                        out.append(key)
+                return "".join(out)
             if s is None or is_number(s) or isinstance(s, (Obj, PList, PDict, tuple)):
                 self.raise_("TypeError", "expected string or bytes-like object, got '%s'" % type(s).__name__)
             raise Undecided("regex on symbolic text (%s)" % r.pattern[:30])
 
+        def back(x):
+            if isinstance(x, tuple):
+                return tuple(back(e) for e in x)
+            if not isinstance(x, str) or not holder:
+                return x
+            pieces = PLACEHOLDER_RE.split(x)
+            if len(pieces) == 1:
+                for k in holder:
+                    for j in range(3, 6):
+                        if x.endswith(k[:j]) or x.startswith(k[-j:]):
+                            raise Undecided("regex split a numeral placeholder")
+                return x
+            keys = PLACEHOLDER_RE.findall(x)
+            parts = []
+            for i, piece in enumerate(pieces):
+                if piece:
+                    if piece[-1:].isdigit() or piece[:1].isdigit() and i > 0:
+                        raise Undecided("digits adjacent to a numeral placeholder")
+                    parts.append(piece)
+                if i < len(keys):
+                    if keys[i] not in holder:
+                        raise Undecided("unknown placeholder")
+                    parts.append(holder[keys[i]])
+            return FmtStr(parts)
+
         def findall(s, *a):
             res = rx.findall(need_str(s), *a)
-            return PList([tuple(x) if isinstance(x, tuple) else x for x in res])
+            return PList([back(tuple(x)) if isinstance(x, tuple) else back(x) for x in res])
 
         def match(s, *a):
             m = rx.match(need_str(s), *a)
-            return NativeMatch(self, m) if m is not None else None
+            return NativeMatch(self, m, back) if m is not None else None
 
         def search(s, *a):
             m = rx.search(need_str(s), *a)
-            return NativeMatch(self, m) if m is not None else None
+            return NativeMatch(self, m, back) if m is not None else None
 
         def sub(repl, s, *a):
             if not isinstance(repl, str):
@@ -1112,15 +1169,15 @@ class NativeMatch(Obj):
 
     __slots__ = ("m", "ip")
 
-    def __init__(self, ip, m):
+    def __init__(self, ip, m, back=lambda x: x):
         cls = ClassVal("Match", [BT["object"]], {})
         Obj.__init__(self, cls)
         object.__setattr__(self, "m", m)
         object.__setattr__(self, "ip", ip)
         m_ = m
         self.fd["lastgroup"] = m_.lastgroup
-        self.fd["group"] = Builtin("match.group", lambda *a: m_.group(*a))
-        self.fd["groups"] = Builtin("match.groups", lambda *a: tuple(m_.groups(*a)))
+        self.fd["group"] = Builtin("match.group", lambda *a: back(m_.group(*a)))
+        self.fd["groups"] = Builtin("match.groups", lambda *a: back(tuple(m_.groups(*a))))
         self.fd["end"] = Builtin("match.end", lambda *a: m_.end(*a))
         self.fd["start"] = Builtin("match.start", lambda *a: m_.start(*a))
         self.fd["span"] = Builtin("match.span", lambda *a: m_.span(*a))
